@@ -334,7 +334,7 @@ def build_lib_services(F, case, rng, j, free):
             descr.append(("battery", (case["batt"] + j) & 0xFF))
         elif kind == "temperature":
             s = F.TemperatureServiceData()
-            t = case["temp"]
+            t = temp_of(case, j)
             s.data = t / 100
             out.append(s)
             descr.append(("temperature", t))
@@ -357,6 +357,12 @@ def build_lib_services(F, case, rng, j, free):
     return out, descr
 
 
+def temp_of(case, j):
+    """the temperature of a session's j-th packet: the sign alternates from packet to packet"""
+    t = case["temp"]
+    return t if j % 2 == 0 else max(-30000, min(30000, -t - 1))
+
+
 def build_ref_services(case, rng, j):
     svc = case["svc"]
     ads, descr = [], []
@@ -366,8 +372,8 @@ def build_ref_services(case, rng, j):
             ads.append(ble_ref.battery_ad((case["batt"] + j) & 0xFF))
             descr.append(("battery", (case["batt"] + j) & 0xFF))
         elif kind == "temperature":
-            ads.append(ble_ref.temperature_ad(case["temp"]))
-            descr.append(("temperature", case["temp"]))
+            ads.append(ble_ref.temperature_ad(temp_of(case, j)))
+            descr.append(("temperature", temp_of(case, j)))
         elif kind == "url":
             txp = [case["txp"], -7, 33, -128][j % 4]
             ads.append(ble_ref.url_ad(case["url"], txp))
